@@ -144,6 +144,28 @@ func (p *Prog) LeavesAt(v ssa.Value, site ssa.CallInstruction, opt PVOpt) *Prov 
 	return st.out
 }
 
+// LeavesChain is Leaves with the parameters of v's function bound through a chain of call sites
+// (outermost first): chain[i+1] lies in the callee of chain[i], v in the callee of the last one.
+func (p *Prog) LeavesChain(v ssa.Value, chain []ssa.CallInstruction, opt PVOpt) *Prov {
+	if opt.MaxInline == 0 {
+		opt.MaxInline = 3
+	}
+	st := &pvState{p: p, opt: opt, out: newProv(), seen: map[string]bool{}}
+	fr := &frame{fn: chain[0].Parent()}
+	for i, site := range chain {
+		var fn *ssa.Function
+		if i+1 < len(chain) {
+			fn = chain[i+1].Parent()
+		} else {
+			fn = v.Parent()
+		}
+		fr = &frame{fn: fn, args: siteArgs(site), parent: fr, depth: fr.depth + 1}
+	}
+	st.opt.MaxInline += fr.depth
+	st.walk(v, fr)
+	return st.out
+}
+
 // PartLeaves computes the provenance of the value a key component was built
 // from.  outer optionally binds the parameters of the function that contains
 // the store operation to the actuals of one of its call sites.
